@@ -153,6 +153,8 @@ type Polyizer struct {
 	// Inline makes calls to pure single-block functions (no loads, stores or
 	// calls; e.g. mm.PageFromAddress, Frame.Address) transparent.
 	Inline bool
+	// NoInline switches that off (it is the default)
+	NoInline bool
 	env    map[ssa.Value]Poly
 	depth  int
 	// tMax: while a loop's induction form is in use and its trip count is a
@@ -228,7 +230,7 @@ func (z *Polyizer) Of(v ssa.Value) Poly {
 			return z.Of(r)
 		}
 	}
-	if z.Inline {
+	if z.Inline || !z.NoInline {
 		var call *ssa.Call
 		idx := 0
 		if c, ok := v.(*ssa.Call); ok && isIntegral(c.Type()) {
